@@ -283,12 +283,18 @@ def tagged_multiset_eq(tp, out, msg="collect_x is not a permutation of the seque
 
 
 def collect_harness(prop, term, ty, src, n, t, c, owners, counts, obs=1, extra_pre="", check=None, tag="",
-                    chunk_expr=None, target=None, weight=None):
+                    chunk_expr=None, target=None, weight=None, count_calls=False, extra_post="", unwind=None):
     """One query = one shape: owner table x outputs-per-element, values symbolic.
     term: collect_vec | collect | collect_x | collect_into (target = Rust expr of the pre-filled target and its
     prefix length is checked by `check`)."""
-    tp = TaggedPipeline(ty, counts, src={"slice": "tslice", "vec": "tvec"}[src])
-    body = tagged_prelude(tp, n, t, owners, obs)
+    tsrc = {"slice": "tslice", "vec": "tvec", "iter": "titer", "iterf": "titerf", "counting": "tcounting"}[src]
+    tp = TaggedPipeline(ty, counts, src=tsrc, count_calls=count_calls)
+    if owners is None:
+        # iterator-backed source or sequential mode: no schedule model (first worker drains all)
+        body = tp.decl() + f"    model::begin_unscheduled({max(t, 2)});\n"
+        body += "    #[cfg(not(kani))]\n    { model::set_base(a.as_ptr() as usize); model::set_stride(core::mem::size_of::<(usize, u8)>()); }\n"
+    else:
+        body = tagged_prelude(tp, n, t, owners, obs)
     body += extra_pre
     params = params_str(t, chunk_expr if chunk_expr else c)
     if check is not None:
@@ -299,11 +305,13 @@ def collect_harness(prop, term, ty, src, n, t, c, owners, counts, obs=1, extra_p
         body += f"    let out = {tp.par(params)}.collect_x();\n" + tagged_multiset_eq(tp, "out")
     else:
         raise ValueError(term)
+    body += extra_post
     body += "    kani::cover!(true);\n"
-    name = cfg_name(prop, term, ty, src, f"n{n}", f"t{t}", f"c{c}", shape_name(owners, counts), tag)
+    name = cfg_name(prop, term, ty, src, f"n{n}", f"t{t}", f"c{c}", shape_name(owners if owners is not None else ["d"], counts), tag)
     return H(name, body, {"terminal": term, "type": ty, "kernel": KERNEL_OF_TYPE[ty], "src": src, "n": n, "threads": t,
                           "chunk": chunk_expr or f"Exact({c})",
-                          "schedule": {"owners": list(owners), "observations": {1: "lazy", 2: "eager"}.get(obs, obs)},
+                          "schedule": ({"owners": list(owners), "observations": {1: "lazy", 2: "eager"}.get(obs, obs)}
+                                       if owners is not None else ("sequential mode" if t == 1 else "first worker drains all")),
                           "outputs_per_element": list(counts), "values": "symbolic, decisions on concrete position tags"},
-             unwind=34 if (term == "collect" and ty == "M") else max(n + 3, sum(counts) + 3, 2 * n + 1 if "FL" in ty else 0),
+             unwind=unwind if unwind else 34 if (term == "collect" and ty == "M") else max(n + 3, sum(counts) + 3, 2 * n + 1 if "FL" in ty else 0),
              weight=weight or (5 + sum(counts) * 2 + (6 if term in ("collect", "collect_x") else 0)))
